@@ -5,17 +5,24 @@
 (* bucket ignored): `pass` counts the passed requests per bucket, `rt`     *)
 (* sums their latencies (ms).                                              *)
 (*                                                                         *)
-(* Time is counted in ticks of TickMs milliseconds; a bucket is Q ticks,   *)
-(* the window Size buckets, W = buckets per second.                        *)
+(* Time is counted in ticks of TickUs microseconds (250 us in the replay   *)
+(* configurations, so that sub-millisecond and fractional-millisecond      *)
+(* latencies exist); a bucket is Q ticks, the window Size buckets, W =     *)
+(* buckets per second.  Latencies are kept EXACTLY (in ticks): the         *)
+(* capacity of the statement is defined by the true average latency.  An   *)
+(* implementation that keeps whole-millisecond statistics may only err     *)
+(* upwards (a larger capacity rejects less, which every clause allows);    *)
+(* rounding a latency or an average DOWN under-estimates the capacity and  *)
+(* rejects requests the statement protects.                                *)
 (*                                                                         *)
 (* The statement is a set of implications, and so is the specification:    *)
 (*   P1  a request is rejected only if the CPU reading of that Allow is    *)
 (*       over the threshold or an overload was observed (by an Allow)      *)
 (*       less than one second ago;                                         *)
 (*   P2  and only if the in-flight count exceeds the capacity              *)
-(*       Cap = max(1, maxPass * W * minRt / 1000)  (maxPass = largest      *)
+(*       Cap = max(1, floor(maxPass * W * minRt))  (maxPass = largest      *)
 (*       per-bucket pass count in the window, at least 1; minRt = smallest *)
-(*       per-bucket average latency in ms, 1000 when there is none) - the  *)
+(*       per-bucket average latency in seconds, at most 1 s) - the         *)
 (*       same for the smoothed in-flight count, which is an average of     *)
 (*       in-flight counts seen at completions and therefore at most        *)
 (*       maxSeen (the driver compares the real smoothed value with Cap);   *)
@@ -29,13 +36,13 @@ EXTENDS Integers, Sequences, FiniteSets, TLC
 
 CONSTANTS Size,      \* buckets per window
           Q,         \* ticks per bucket
-          TickMs,    \* milliseconds per tick
+          TickUs,    \* microseconds per tick
           Advances,  \* time advances offered (ticks)
           MaxFly     \* bound on outstanding requests (model checking)
 
 VARIABLES now,       \* ticks
           passBk,    \* [0..Size-1 -> Nat]   passes per bucket, by age (0 = current)
-          rtBk,      \* [0..Size-1 -> [sum, count]] latencies per bucket, by age
+          rtBk,      \* [0..Size-1 -> [sum, count]] latencies (ticks) per bucket, by age
           starts,    \* sequence of the start instants of the outstanding requests (oldest first)
           over,      \* [seen, at]: last instant at which an Allow observed CPU overload
           maxSeen,   \* largest in-flight count seen by a completion (after its decrement)
@@ -46,24 +53,32 @@ core == <<now, passBk, rtBk, starts, over, maxSeen>>
 
 Ages == 0..(Size - 1)
 Visible == 1..(Size - 1)                 \* the shedder's windows ignore the current bucket
-CoolTicks == 1000 \div TickMs            \* one second
-W == 1000 \div (Q * TickMs)              \* buckets per second
+TicksPerSec == 1000000 \div TickUs
+CoolTicks == TicksPerSec                 \* one second
+W == TicksPerSec \div Q                  \* buckets per second
 Cur(t) == t \div Q
 EmptyRt == [sum |-> 0, count |-> 0]
 Max2(a, b) == IF a > b THEN a ELSE b
 Min2(a, b) == IF a < b THEN a ELSE b
 SetMax(S) == CHOOSE m \in S : \A x \in S : x <= m
 SetMin(S) == CHOOSE m \in S : \A x \in S : m <= x
-RoundDiv(s, c) == (2 * s + c) \div (2 * c)          \* nearest integer, halves up
 
 ShiftP(b, s) == [j \in Ages |-> IF j >= s THEN b[j - s] ELSE 0]
 ShiftR(b, s) == [j \in Ages |-> IF j >= s THEN b[j - s] ELSE EmptyRt]
 
 Flying == Len(starts)
 MaxPass(pb) == SetMax({1} \cup {pb[j] : j \in Visible})
-RtAvgs(rb) == {RoundDiv(rb[j].sum, rb[j].count) : j \in {a \in Visible : rb[a].count > 0}}
-MinRt(rb) == SetMin({1000} \cup RtAvgs(rb))
-Cap(pb, rb) == Max2(1, (MaxPass(pb) * W * MinRt(rb)) \div 1000)
+\* floor(m * (b.sum / b.count) / TicksPerSec) for the exact average b.sum / b.count, without
+\* leaving 32-bit integers: sum = q * count + r, and floor((A + x) / D) = floor((A + floor(x)) / D)
+BucketCap(m, b) ==
+  LET q == b.sum \div b.count
+      r == b.sum % b.count
+  IN (m * q + (m * r) \div b.count) \div TicksPerSec
+\* the minimum over the buckets' average latencies (and over the 1 s ceiling of minRt) commutes
+\* with the monotone  floor(m * _)
+Cap(pb, rb) ==
+  LET m == MaxPass(pb) * W IN
+  Max2(1, SetMin({m} \cup {BucketCap(m, rb[j]) : j \in {a \in Visible : rb[a].count > 0}}))
 
 Recently(o, t) == o.seen /\ t - o.at < CoolTicks
 Hot(cpuOver, o, t) == cpuOver \/ Recently(o, t)
@@ -111,9 +126,9 @@ Complete(i, pass) ==
   /\ maxSeen' = Max2(maxSeen, Len(starts) - 1)
   /\ IF pass
        THEN /\ passBk' = [passBk EXCEPT ![0] = @ + 1]
-            /\ rtBk' = [rtBk EXCEPT ![0] = [sum |-> @.sum + (now - starts[i]) * TickMs, count |-> @.count + 1]]
+            /\ rtBk' = [rtBk EXCEPT ![0] = [sum |-> @.sum + (now - starts[i]), count |-> @.count + 1]]
        ELSE UNCHANGED <<passBk, rtBk>>
-  /\ out' = [op |-> IF pass THEN "pass" ELSE "fail", i |-> i, rt |-> (now - starts[i]) * TickMs,
+  /\ out' = [op |-> IF pass THEN "pass" ELSE "fail", i |-> i, rt |-> now - starts[i],
              flying |-> Len(starts) - 1, maxSeen |-> maxSeen']
   /\ UNCHANGED <<now, over>>
 
